@@ -14,6 +14,7 @@ pub struct MarkdownEventsReader {
     blocks_stack: Vec<DocumentBlock>,
     blocks: DocumentBlocks,
     line_starts: Vec<usize>,
+    content: String,
     metadata_block: bool,
     metadata: Option<String>,
 }
@@ -26,6 +27,7 @@ impl MarkdownEventsReader {
             blocks_stack: Vec::new(),
             blocks: Vec::new(),
             line_starts: Vec::new(),
+            content: String::new(),
             metadata_block: false,
             metadata: None,
         }
@@ -52,6 +54,7 @@ impl MarkdownEventsReader {
         )
         .into_offset_iter();
         self.line_starts = line_starts(content);
+        self.content = content.to_string();
 
         while let Some((event, range)) = iter.next() {
             match event {
@@ -359,11 +362,11 @@ impl MarkdownEventsReader {
         for (line, &line_start) in self.line_starts.iter().enumerate() {
             if line_start <= range.start {
                 start = line;
-                start_char = range.start - line_start;
+                start_char = self.utf16_len(line_start, range.start);
             }
             if line_start <= range.end {
                 end = line;
-                end_char = range.end - line_start;
+                end_char = self.utf16_len(line_start, range.end);
             }
         }
 
@@ -374,6 +377,14 @@ impl MarkdownEventsReader {
             line: end,
             character: end_char,
         }
+    }
+
+    /// LSP counts characters in UTF-16 code units, the parser reports byte offsets
+    fn utf16_len(&self, from: usize, to: usize) -> usize {
+        self.content
+            .get(from..to)
+            .map(|text| text.encode_utf16().count())
+            .unwrap_or(to.saturating_sub(from))
     }
 
     fn to_line_range(&self, range: Range<usize>) -> LineRange {
@@ -398,17 +409,17 @@ impl MarkdownEventsReader {
 }
 
 fn line_starts(content: &str) -> Vec<usize> {
-    once(0)
-        .chain(
-            content
-                .lines()
-                .map(|line| line.len() + 1)
-                .scan(0, |start, len| {
-                    *start += len;
-                    Some(*start)
-                }),
-        )
-        .collect()
+    // byte offset at which each line starts; a line ends with "\n", be it LF or CRLF
+    let mut starts: Vec<usize> = once(0)
+        .chain(content.match_indices('\n').map(|(index, _)| index + 1))
+        .collect();
+
+    // (one entry past a last line that has no line terminator, as before)
+    if !content.is_empty() && !content.ends_with('\n') {
+        starts.push(content.len() + 1);
+    }
+
+    starts
 }
 
 fn to_link_type(link_type: LinkType) -> document::LinkType {
